@@ -51,6 +51,30 @@ TF_RULES = [
     (r"c10_round_inverse_lemma", dict(filter="c10_", props=["C10"], tier="quick", funcs="spec-level: spec/threefish.rs round_core/inv_core", timeout=1800)),
 ]
 
+HASH_BOUND = "update: per-call (buffer fill, length) shapes enumerated concretely, length <= 300 bytes; finalize: every buffer fill level (quick: boundary fills); chaining value, counters, data symbolic; histories unbounded"
+MODE_ASSUME = "compression entry points replaced by contract stubs (uninterpreted function + call log); their relation to the specification's compression function is proved (BLAKE, Threefish/UBI) or assumed (JH E8, Groestl P/Q) elsewhere"
+
+
+def HASH_RULES():
+    H = {"blake": ("C04", "blake_hash::{Blake224,Blake256,Blake384,Blake512}::{default, update, finalize_into_dirty, reset, clone, increase_count}, Compressor{256,512}::finalize"),
+         "groestl": ("C07", "groestl_aesni::{Groestl224,Groestl256,Groestl384,Groestl512}::{default, new_truncated, update, finalize_dirty, finalize_into_dirty, reset, clone}, Compressor{512,1024}::{new,input,finalize_dirty}"),
+         "jh": ("C06", "jh_x86_64::{Jh224,Jh256,Jh384,Jh512}::{default, update, finalize_into_dirty, reset, clone}"),
+         "skein": ("C05", "skein_hash::{Skein256,Skein512,Skein1024}<N>::{default, update, finalize_into_dirty, reset, clone}")}
+    r = []
+    for fam, (pc, funcs) in H.items():
+        cx = pc.lower()
+        for tier in ("quick", "thorough"):
+            mod = "%s_mode::%s::" % (fam, tier)
+            r.append((mod + cx + r"_\w+_finalize_p", dict(filter=mod + cx, props=[pc, "C17", "C16"], tier=tier, funcs=funcs, bounded=HASH_BOUND, timeout=2400,
+                                                        tier_by_prop={"C16": "thorough"})))
+            r.append((mod + cx + r"_\w+_default_reset", dict(filter=mod + cx, props=[pc, "C08"], tier=tier, funcs=funcs, timeout=2400)))
+            r.append((mod + r"c08_\w+_default_reset", dict(filter=mod + "c08", props=[pc, "C08"], tier=tier, funcs=funcs, timeout=2400)))
+            r.append((mod + r"c08_\w+_update_p", dict(filter=mod + "c08", props=["C08", "C17", "C16"], tier=tier, funcs=funcs, bounded=HASH_BOUND, timeout=2400,
+                                                     tier_by_prop={"C16": "thorough"})))
+            r.append((mod + r"c08_\w+_clone_p", dict(filter=mod + "c08", props=["C08"], tier=tier, funcs=funcs, bounded=HASH_BOUND, timeout=2400)))
+    return r
+
+
 UNITS = {
     "ppv_x86": dict(
         template="kani/ppv", crate="ppv_h", zflags=["stubbing"], cargo_args=[], rustflags=RF_ZC,
@@ -90,6 +114,11 @@ UNITS = {
         backend_note="feature no_unroll (rounds in for loops)",
         rules=TF_RULES,
     ),
+    "hashes": dict(
+        template="kani/hashes", crate="hashes_h", zflags=["stubbing"], cargo_args=[], rustflags=RF_HOOK, native_replay=False,
+        backend_note="mode-of-operation layer (backend independent); " + MODE_ASSUME,
+        rules=HASH_RULES(),
+    ),
     "ppvnull": dict(
         template="kani/ppvnull", crate="ppvnull_h", zflags=[], cargo_args=[], rustflags=RF_ZC,
         backend_note="ppv-null emulation types",
@@ -107,6 +136,7 @@ PROP_UNITS = {
     "C15": ["chacha_x86", "chacha_generic"],
     "C02": ["chacha_x86", "chacha_generic"],
     "C11": ["chacha_x86", "chacha_generic"],
+    "C04": ["hashes"], "C05": ["hashes", "threefish"], "C06": ["hashes"], "C07": ["hashes"], "C08": ["hashes"], "C17": ["hashes"],
     "C09": ["threefish", "threefish_no_unroll"],
     "C10": ["threefish", "threefish_no_unroll"],
 }
@@ -120,7 +150,7 @@ PROP_LEVEL = {
     "C12": "proof",
     "C13": "proof",
     "C19": "proof",
-    "C09": "proof", "C10": "proof",
+    "C09": "proof", "C10": "proof", "C04": "proof", "C05": "proof", "C06": "proof", "C07": "proof", "C08": "proof", "C17": "proof",
     "C01": "proof", "C14": "proof", "C15": "proof", "C02": "proof", "C11": "proof",
 }
 
